@@ -283,12 +283,24 @@ class Hooks:
     # -- adjacency guard
     def if_(self, it, st):
         t = st.test
+        is_adj = lambda x: isinstance(x, ast.Call) and ast.unparse(x.func) == "elements_adjacent"
+        a = b = None
         if isinstance(t, ast.BoolOp) and isinstance(t.op, ast.And) and len(t.values) == 2:
-            a, b = t.values
-            if isinstance(a, ast.Name) and isinstance(b, ast.Call) and ast.unparse(b.func) == "elements_adjacent":
-                flag = it.ev(a)
-                if not (isinstance(flag, Opq) and flag.kind == "grids_identical"):
-                    raise AnalysisError("adjacency test is not gated by the grids_identical parameter")
+            x, y = t.values
+            if isinstance(x, ast.Name) and is_adj(y):
+                a, b = x, y
+            elif isinstance(y, ast.Name) and is_adj(x):
+                a, b = y, x
+        elif is_adj(t):
+            b = t  # adjacency test without any gate: recorded, reported by the rule that reads adjacency_tests
+        if b is not None:
+            if True:
+                gated = False
+                if a is not None:
+                    flag = it.ev(a)
+                    if not (isinstance(flag, Opq) and flag.kind == "grids_identical"):
+                        raise AnalysisError("adjacency test is not gated by the grids_identical parameter")
+                    gated = True
                 args = [it.ev(x) for x in b.args]
                 if len(args) != 3:
                     raise AnalysisError("elements_adjacent arity changed")
@@ -301,7 +313,7 @@ class Hooks:
                 arr = it.ev(tgt.value)
                 spec = it.slice_spec(tgt.slice, arr, st)
                 marker = opaque_atom("adj", [tov(args[1]), tov(args[2])])
-                self.adjacency_tests.append({"table": args[0], "e1": tov(args[1]), "e2": tov(args[2]), "node": st})
+                self.adjacency_tests.append({"table": args[0], "e1": tov(args[1]), "e2": tov(args[2]), "node": st, "gated": gated})
                 it.write(arr, spec, "=", marker, st)
                 return True
         return None
@@ -666,6 +678,9 @@ def check_regular(ctx, fname, assembly_type, kparams):
         (tests[0]["e1"].eq(Et) and _is_trial_elem(tests[0]["e2"])) or (_is_trial_elem(tests[0]["e1"]) and tests[0]["e2"].eq(Et)))
     out.append(("adjacency-test", ok_t, "adjacency is tested with %s" % ([(t["table"].desc if isinstance(t["table"], Arr) else "?", symex.idx_str(t["e1"]), symex.idx_str(t["e2"])) for t in tests],)
                 + ", expected elements_adjacent(test_grid_data.elements, test element, trial element) once per pair"))
+    ungated = [t for t in tests if not t.get("gated", True)]
+    out.append(("adjacency-gate", not ungated, "element pairs with a common vertex NUMBER are skipped whether or not test and trial grid are the same grid (the test is not gated by grids_identical): "
+                "between two different grids nothing adds these pairs back, and their vertex numbers have nothing to do with each other"))
     ok_any = False
     for pv, qv in ((sig[0], sig[1]), (sig[1], sig[0])):
         p, q = V.atom(sigma_var(pv)), V.atom(sigma_var(qv))
